@@ -454,45 +454,63 @@ func run(c *Ctx) {
 		}())
 		c.Nontrivial("eff:" + impl)
 
-		// real Encode: all error rows (cheap), and a sample of the accepted rows on a small image
-		blobBig := len(r.o.ICC) > 1000 || len(r.o.EXIF) > 1000 || len(r.o.XMP) > 1000
-		accepted := e.ErrClass == 0
-		doReal := !accepted || (i%7 == 0 && !(blobBig && !r.optsNil))
-		if c.Thorough() && accepted && !blobBig {
-			doReal = i%2 == 0
+		// ---- the property itself, decided from the DOCUMENTED contract (docContract below), not
+		// from the model and not from the code's own validation: Encode must fail iff the
+		// documentation says the options / dimensions are invalid.
+		eff := &r.o
+		if r.optsNil {
+			eff = webp.DefaultOptions() // documented: nil options behave as DefaultOptions()
+		}
+		docBad := docContract(eff)
+		dimBad := r.w <= 0 || r.h <= 0 || r.w > 16383 || r.h > 16383
+		mustFail := docBad != "" || dimBad
+		hookAccepts := e.ErrClass == 0
+		blobBig := len(eff.ICC) > 1000 || len(eff.EXIF) > 1000 || len(eff.XMP) > 1000
+		doReal := mustFail || !hookAccepts || (i%7 == 0 && !blobBig)
+		if c.Thorough() && !mustFail && !blobBig {
+			doReal = doReal || i%2 == 0
+		}
+		// never start an encode of an absurdly large picture should a broken tree accept it
+		if docBad == "" && dimBad && r.w > 0 && r.h > 0 && (r.w > 20000 || r.h > 20000 || r.w*r.h > 400000) {
+			doReal = false
 		}
 		if !doReal {
 			continue
 		}
 		var img image.Image
-		if accepted {
-			if r.w*r.h <= 1024 && r.w > 0 && r.h > 0 && r.w*r.h > 0 {
-				img = testImage(rng.Fork(), r.w, r.h, map[bool]int{false: 0, true: 1}[r.hasAlpha])
-			} else if r.hasAlpha {
-				img = smallA
-			} else {
-				img = small
-			}
-		} else if e.ErrClass == 2 {
+		switch {
+		case dimBad:
 			img = dimImage{r.w, r.h}
-		} else {
+		case !mustFail && r.w*r.h <= 1024:
+			img = testImage(rng.Fork(), r.w, r.h, map[bool]int{false: 0, true: 1}[r.hasAlpha])
+		case r.hasAlpha:
+			img = smallA
+		default:
 			img = small
 		}
 		res := encode(img, op)
 		realEnc++
 		c.D.Evaluations++
-		rep := map[string]any{"case": caseLine, "image": fmt.Sprintf("%T %v", img, img.Bounds())}
+		rep := map[string]any{"case": caseLine, "options": oline, "options_nil": r.optsNil, "image": fmt.Sprintf("%T %v", img, img.Bounds()),
+			"documented": map[bool]string{true: "must fail", false: "must succeed"}[mustFail]}
 		switch {
 		case res.panicked != "":
 			c.Violate("panic", "webp.Encode panicked: "+res.panicked, rep)
-		case accepted && res.err != nil:
-			c.Violate("valid-options-rejected", "options accepted by validateConfig and the dimension checks, but Encode failed: "+res.err.Error(), rep)
-		case !accepted && res.err == nil:
-			c.Violate("invalid-options-accepted", "Encode succeeded although validation / dimension checks reject", rep)
+		case mustFail && res.err == nil:
+			f := docBad
+			if f == "" {
+				f = "dimensions"
+			}
+			c.Violate("accepted-out-of-range:"+f, fmt.Sprintf("Encode wrote %d bytes although the documentation makes %s invalid", len(res.out), f), rep)
+		case !mustFail && res.err != nil:
+			c.Violate("rejected-valid:"+blameField(img, eff), "every field is inside its documented range, but Encode failed: "+res.err.Error(), rep)
 		case res.err != nil && len(res.out) != 0:
 			c.Violate("error-wrote-bytes", fmt.Sprintf("Encode returned an error after writing %d bytes", len(res.out)), rep)
 		case res.err == nil && (len(res.out) < 20 || string(res.out[:4]) != "RIFF" || string(res.out[8:12]) != "WEBP"):
 			c.Violate("ok-without-file", "Encode returned nil but did not write a RIFF/WEBP file", rep)
+		}
+		if hookAccepts == mustFail && res.panicked == "" {
+			c.Count("hook_verdict_differs_from_documentation")
 		}
 	}
 	c.D.Distribution["real_encode_calls_on_rows"] = realEnc
@@ -556,7 +574,269 @@ func run(c *Ctx) {
 	}
 
 	directEquivalences(c, rng.Fork())
+	explicitValues(c)
 	c.Sample(map[string]any{"rows": len(rows), "example_case": "eff 0 0 0 16 16 1 " + optsLine(&bases[2])})
+}
+
+// ---------------------------------------------------------------------------
+// The documented contract of EncoderOptions, frozen from its doc comments (the same values as
+// coq/theories/Opts/OptsDoc.v).  Returns the first field whose value the documentation makes
+// invalid, or "" when every field is inside its documented range (negative = sentinel where
+// documented; Segments/Pass also accept 0 as "default").
+func docContract(o *webp.EncoderOptions) string {
+	finite := func(f float32) bool { return f == f && !math.IsInf(float64(f), 0) }
+	rq := o.QMax
+	if rq < 0 {
+		rq = 100
+	}
+	switch {
+	case !finite(o.Quality) || o.Quality < 0 || o.Quality > 100:
+		return "Quality"
+	case o.Method < 0 || o.Method > 6:
+		return "Method"
+	case o.TargetSize < 0:
+		return "TargetSize"
+	case !finite(o.TargetPSNR) || o.TargetPSNR < 0:
+		return "TargetPSNR"
+	case o.Preprocessing < 0 || o.Preprocessing > 3:
+		return "Preprocessing"
+	case o.Preset < webp.PresetDefault || o.Preset > webp.PresetText:
+		return "Preset"
+	case o.SNSStrength > 100:
+		return "SNSStrength"
+	case o.FilterStrength > 100:
+		return "FilterStrength"
+	case o.FilterSharpness < 0 || o.FilterSharpness > 7:
+		return "FilterSharpness"
+	case o.FilterType > 1:
+		return "FilterType"
+	case o.Partitions < 0 || o.Partitions > 3:
+		return "Partitions"
+	case o.Segments > 4:
+		return "Segments"
+	case o.Pass > 10:
+		return "Pass"
+	case o.QMin < 0 || o.QMin > 100:
+		return "QMin"
+	case rq > 100:
+		return "QMax"
+	case o.QMin > rq:
+		return "QMin>QMax"
+	case o.AlphaCompression > 1:
+		return "AlphaCompression"
+	case o.AlphaFiltering > 2:
+		return "AlphaFiltering"
+	case o.AlphaQuality > 100:
+		return "AlphaQuality"
+	case len(o.ICC) > metaMax:
+		return "ICC"
+	case len(o.EXIF) > metaMax:
+		return "EXIF"
+	case len(o.XMP) > metaMax:
+		return "XMP"
+	}
+	return ""
+}
+
+// blameField names the field of a wrongly rejected (documented-valid) option value: the first
+// field whose reset to its DefaultOptions() value makes Encode succeed.
+func blameField(img image.Image, o *webp.EncoderOptions) string {
+	d := webp.DefaultOptions()
+	for _, f := range fields {
+		t := cloneOpts(o)
+		switch f.name {
+		case "Lossless":
+			t.Lossless = d.Lossless
+		case "Quality":
+			t.Quality = d.Quality
+		case "Method":
+			t.Method = d.Method
+		case "Preset":
+			t.Preset = d.Preset
+		case "UseSharpYUV":
+			t.UseSharpYUV = d.UseSharpYUV
+		case "Exact":
+			t.Exact = d.Exact
+		case "TargetSize":
+			t.TargetSize = d.TargetSize
+		case "TargetPSNR":
+			t.TargetPSNR = d.TargetPSNR
+		case "Preprocessing":
+			t.Preprocessing = d.Preprocessing
+		case "SNSStrength":
+			t.SNSStrength = d.SNSStrength
+		case "FilterStrength":
+			t.FilterStrength = d.FilterStrength
+		case "FilterSharpness":
+			t.FilterSharpness = d.FilterSharpness
+		case "FilterType":
+			t.FilterType = d.FilterType
+		case "Partitions":
+			t.Partitions = d.Partitions
+		case "Segments":
+			t.Segments = d.Segments
+		case "Pass":
+			t.Pass = d.Pass
+		case "EmulateJpegSize":
+			t.EmulateJpegSize = d.EmulateJpegSize
+		case "QMin":
+			t.QMin = d.QMin
+		case "QMax":
+			t.QMax = d.QMax
+		case "AlphaCompression":
+			t.AlphaCompression = d.AlphaCompression
+		case "AlphaFiltering":
+			t.AlphaFiltering = d.AlphaFiltering
+		case "AlphaQuality":
+			t.AlphaQuality = d.AlphaQuality
+		case "ICC":
+			t.ICC = nil
+		case "EXIF":
+			t.EXIF = nil
+		case "XMP":
+			t.XMP = nil
+		}
+		if optsLine(t) == optsLine(o) {
+			continue
+		}
+		if r := encode(img, t); r.panicked == "" && r.err == nil {
+			return f.name
+		}
+	}
+	return "combination"
+}
+
+// observableImage is a fixed (seed-independent) 48x40 picture on which the tuning options are
+// observable: smooth gradients plus texture and edges, alpha graded over many levels with a
+// fully transparent corner whose RGB is garbage.
+func observableImage() *image.NRGBA {
+	const w, h = 48, 40
+	im := image.NewNRGBA(image.Rect(0, 0, w, h))
+	s := uint32(2463534242)
+	for y := 0; y < h; y++ {
+		for x := 0; x < w; x++ {
+			s ^= s << 13
+			s ^= s >> 17
+			s ^= s << 5
+			i := y*im.Stride + x*4
+			n := int(s >> 27)
+			r, g, b := x*5+n, y*6+n/2, (x*y)/8+n
+			if (x/8+y/8)%2 == 0 {
+				r, b = 255-r&255, b+40
+			}
+			if x > 30 && y > 24 { // high-frequency patch
+				r, g, b = int(s>>8)&255, int(s>>16)&255, int(s>>24)&255
+			}
+			a := 16 + (x*239)/(w-1) // 16..255 in many levels
+			if y%7 == 3 {
+				a = (a*3 + int(s>>20)&63) / 4
+			}
+			if x < 9 && y < 9 {
+				a = 0
+				r, g, b = int(s)&255, int(s>>5)&255, int(s>>11)&255
+			}
+			im.Pix[i], im.Pix[i+1], im.Pix[i+2], im.Pix[i+3] = uint8(r), uint8(g), uint8(b), uint8(a)
+		}
+	}
+	return im
+}
+
+// explicitValues: each documented in-range explicit value must be honoured, i.e. on the
+// observable image it must give a file different from the neighbour value the documentation
+// distinguishes it from (in particular an explicit 0 is a value, not the sentinel, for every
+// field whose sentinel is "negative").  Only pairs for which the documentation implies a
+// different encoding are listed.
+type explicitPair struct {
+	field string
+	why   string
+	a, b  func(o *webp.EncoderOptions)
+	base  func() webp.EncoderOptions
+}
+
+func explicitPairs() []explicitPair {
+	def := func() webp.EncoderOptions { return *webp.DefaultOptions() }
+	target := func() webp.EncoderOptions { o := *webp.DefaultOptions(); o.TargetSize = 600; o.Pass = 6; return o }
+	strong := func() webp.EncoderOptions { o := *webp.DefaultOptions(); o.Quality = 30; o.FilterStrength = 80; return o }
+	return []explicitPair{
+		{"AlphaQuality", "0 is an explicit value (range 0-100; values below 100 quantize the alpha levels), only negatives mean 100",
+			func(o *webp.EncoderOptions) { o.AlphaQuality = 0 }, func(o *webp.EncoderOptions) { o.AlphaQuality = 100 }, def},
+		{"AlphaQuality", "50 quantizes the alpha levels, 100 does not",
+			func(o *webp.EncoderOptions) { o.AlphaQuality = 50 }, func(o *webp.EncoderOptions) { o.AlphaQuality = 100 }, def},
+		{"AlphaCompression", "0 = raw alpha bytes, 1 = VP8L compression; 0 is not the sentinel",
+			func(o *webp.EncoderOptions) { o.AlphaCompression = 0 }, func(o *webp.EncoderOptions) { o.AlphaCompression = 1 }, def},
+		{"AlphaFiltering", "0 = none is an explicit value, the default is 1 (fast)",
+			func(o *webp.EncoderOptions) { o.AlphaFiltering = 0 }, func(o *webp.EncoderOptions) { o.AlphaFiltering = 1 }, def},
+		{"SNSStrength", "0 is an explicit value (range 0-100), the default is 50",
+			func(o *webp.EncoderOptions) { o.SNSStrength = 0 }, func(o *webp.EncoderOptions) { o.SNSStrength = 50 }, def},
+		{"SNSStrength", "100 differs from the default 50",
+			func(o *webp.EncoderOptions) { o.SNSStrength = 100 }, func(o *webp.EncoderOptions) { o.SNSStrength = 50 }, def},
+		{"FilterStrength", "0 (no loop filter) is an explicit value, the default is 60",
+			func(o *webp.EncoderOptions) { o.FilterStrength = 0 }, func(o *webp.EncoderOptions) { o.FilterStrength = 60 }, def},
+		{"FilterStrength", "100 differs from the default 60",
+			func(o *webp.EncoderOptions) { o.FilterStrength = 100 }, func(o *webp.EncoderOptions) { o.FilterStrength = 60 }, def},
+		{"FilterType", "0 = simple is an explicit value, the default is 1 = strong",
+			func(o *webp.EncoderOptions) { o.FilterType = 0 }, func(o *webp.EncoderOptions) { o.FilterType = 1 }, def},
+		{"FilterSharpness", "0-7 sharpen the filter",
+			func(o *webp.EncoderOptions) { o.FilterSharpness = 7 }, func(o *webp.EncoderOptions) { o.FilterSharpness = 0 }, strong},
+		{"Partitions", "the number of token partitions is 1 << Partitions",
+			func(o *webp.EncoderOptions) { o.Partitions = 3 }, func(o *webp.EncoderOptions) { o.Partitions = 0 }, def},
+		{"Partitions", "the number of token partitions is 1 << Partitions",
+			func(o *webp.EncoderOptions) { o.Partitions = 1 }, func(o *webp.EncoderOptions) { o.Partitions = 0 }, def},
+		{"Segments", "1 segment is an explicit value (range 1-4), the default is 4",
+			func(o *webp.EncoderOptions) { o.Segments = 1 }, func(o *webp.EncoderOptions) { o.Segments = 4 }, def},
+		{"Segments", "2 segments differ from 4",
+			func(o *webp.EncoderOptions) { o.Segments = 2 }, func(o *webp.EncoderOptions) { o.Segments = 4 }, def},
+		{"QMax", "0 is an explicit value (range 0-100) clamping the rate control, only negatives mean 100",
+			func(o *webp.EncoderOptions) { o.QMax = 0 }, func(o *webp.EncoderOptions) { o.QMax = 100 }, target},
+		{"QMin", "QMin clamps the rate control from below",
+			func(o *webp.EncoderOptions) { o.QMin = 95; o.QMax = 100 }, func(o *webp.EncoderOptions) { o.QMin = 0; o.QMax = 100 }, target},
+		{"TargetSize", "a target size drives the quality instead of Quality",
+			func(o *webp.EncoderOptions) { o.TargetSize = 300 }, func(o *webp.EncoderOptions) { o.TargetSize = 0 }, def},
+		{"TargetPSNR", "a target PSNR drives the quality instead of Quality",
+			func(o *webp.EncoderOptions) { o.TargetPSNR = 30 }, func(o *webp.EncoderOptions) { o.TargetPSNR = 0 }, def},
+		{"Preprocessing", "bit 1 adds dithering to the RGB->YUV conversion",
+			func(o *webp.EncoderOptions) { o.Preprocessing = 2 }, func(o *webp.EncoderOptions) { o.Preprocessing = 0 }, strong},
+		{"UseSharpYUV", "sharp RGB->YUV conversion replaces the standard one",
+			func(o *webp.EncoderOptions) { o.UseSharpYUV = true }, func(o *webp.EncoderOptions) { o.UseSharpYUV = false }, def},
+		{"Exact", "Exact skips the transparent-area clean-up",
+			func(o *webp.EncoderOptions) { o.Exact = true }, func(o *webp.EncoderOptions) { o.Exact = false }, def},
+		{"Quality", "lower quality means smaller files",
+			func(o *webp.EncoderOptions) { o.Quality = 0 }, func(o *webp.EncoderOptions) { o.Quality = 75 }, def},
+		{"Method", "0 = fastest, 6 = slowest / best",
+			func(o *webp.EncoderOptions) { o.Method = 0 }, func(o *webp.EncoderOptions) { o.Method = 4 }, def},
+		{"Lossless", "Lossless selects VP8L",
+			func(o *webp.EncoderOptions) { o.Lossless = true }, func(o *webp.EncoderOptions) { o.Lossless = false }, def},
+	}
+}
+
+func explicitValues(c *Ctx) {
+	im := observableImage()
+	for _, p := range explicitPairs() {
+		oa, ob := p.base(), p.base()
+		p.a(&oa)
+		p.b(&ob)
+		runtime.GC()
+		runtime.GC()
+		ra := encode(im, &oa)
+		runtime.GC()
+		runtime.GC()
+		rb := encode(im, &ob)
+		c.D.Evaluations += 2
+		rep := map[string]any{"image": "observableImage() 48x40, graded alpha", "options_a": optsLine(&oa), "options_b": optsLine(&ob), "documentation": p.why}
+		if ra.panicked != "" || rb.panicked != "" {
+			c.Violate("panic", "webp.Encode panicked: "+ra.panicked+rb.panicked, rep)
+			continue
+		}
+		if ra.err != nil || rb.err != nil {
+			c.Violate("rejected-valid:"+p.field, "an in-range explicit value was rejected", rep)
+			continue
+		}
+		c.Count("explicit_value_pairs")
+		c.Nontrivial("explicit:" + p.field + optsLine(&oa))
+		if bytes.Equal(ra.out, rb.out) {
+			c.Violate("explicit-value-ignored:"+p.field, "two documented-distinct explicit values give byte-identical files ("+p.why+")", rep)
+		}
+	}
 }
 
 // ---------------------------------------------------------------------------
